@@ -119,7 +119,24 @@ def build(variant="default", log=None):
         env.pop("MAKEFLAGS", None)
         if variant in ("asan", "tsan"):
             env["ASAN_OPTIONS"] = "detect_leaks=0"
-        r = subprocess.run(cmd, cwd=d, capture_output=True, text=True, env=env)
+        # own process group + time limit: a changed tree can make the freshly built chibi loop forever
+        # inside the repository's own make (generation of the .meta files)
+        import signal
+        proc = subprocess.Popen(cmd, cwd=d, stdout=subprocess.PIPE, stderr=subprocess.PIPE, text=True, env=env,
+                                start_new_session=True)
+        try:
+            so, se = proc.communicate(timeout=BUILD_TIMEOUT)
+        except subprocess.TimeoutExpired:
+            try:
+                os.killpg(proc.pid, signal.SIGKILL)
+            except OSError:
+                pass
+            so, se = proc.communicate()
+            with open(os.path.join(d, ".build.log"), "w") as fh:
+                fh.write(" ".join(cmd) + "\n" + (so or "") + (se or "") + "\nTIMEOUT after %d s\n" % BUILD_TIMEOUT)
+            raise BuildError("build of variant %s did not finish within %d s (see %s/.build.log):\n%s"
+                             % (variant, BUILD_TIMEOUT, d, ((so or "") + (se or ""))[-3000:]))
+        r = subprocess.CompletedProcess(cmd, proc.returncode, so, se)
         with open(os.path.join(d, ".build.log"), "w") as fh:
             fh.write(" ".join(cmd) + "\n" + r.stdout + r.stderr)
         if r.returncode != 0 or not os.path.exists(os.path.join(d, "chibi-scheme")):
@@ -127,6 +144,9 @@ def build(variant="default", log=None):
         with open(os.path.join(d, ".built-ok"), "w") as fh:
             fh.write("%.1f\n" % (time.time() - t0))
         return d
+
+
+BUILD_TIMEOUT = int(os.environ.get('VERIF_BUILD_TIMEOUT', '1500'))
 
 
 class BuildError(Exception):
